@@ -1,11 +1,14 @@
 /-
   Layer E for a tree of directories: the FAT tree model (Model/Fat/TreeFs.lean) refines the
   plain tree of named byte strings (Spec/Tree.lean), and keeps the cluster-ownership invariant.
+  First part:
     writeDir_ok     writeDirectoryEntries keeps the cluster map sound and touches no other owner
-    dstep_local     every call inside one directory: invariant, frame, refinement, refusals
-    atDirT_local    the path walk lifts that to any depth (induction over the path)
-    tstep_inv / tstep_refines / tstep_refused / tstep_spec_error
-    trun_refines    the same along every history (induction over the call list)
+    StepFacts / LocalOk   what one call inside a directory must establish
+    assemble_mid / assemble_drop / add_leaf   list surgery around one child
+    local_mkdir / local_create
+  Second part (Proofs/FatTreeStep.lean): the other calls, `dstep_local`, the lift through the path
+  walk `atDirT_local`, `tstep_*`, `trun_refines`.  Third (Proofs/FatTreeFit.lean): every directory
+  fits its storage.  Fourth (Proofs/FatTreeFree.lean): free-space accounting.
   Core Lean only.
 -/
 import DiskfsModel.Model.Fat.TreeFs
